@@ -38,7 +38,9 @@ CLAIMED = {
             "encode-decode-encode is stable), C14_judge_exact, C14_*_legacy_refuted (the pre-fix decoders/encoders violate it), C14_ipv6_refuted and C14_user_semicolon_refuted "
             "(the two tracked known findings, outside the grammar). Correspondence: grammar-driven values -> reference text (printed by the Coq side) -> real Parse*/String()/accessors "
             "vs. model, judged against the expected observation.",
-            "The Via default-port rendering question is settled by the fix b230f5d (sent-by kept as received). IPv6 references and ';'/'?' in the user part are reported as KNOWN-FINDING.",
+            "The Via default-port rendering question is settled by the fix b230f5d (sent-by kept as received). IPv6 references and ';'/'?' in the user part are reported as KNOWN-FINDING. "
+            "strings.Fields (Via sent-protocol / sent-by, CSeq) is modelled Unicode-aware (Bytes.fields_go): the grammar domain of C14_via / C14_cseq excludes a Unicode-space "
+            "sequence inside those tokens (via_usp_necessary / cseq_usp_necessary show why), and a raw stream of such texts and look-alikes is compared model-vs-code.",
             "Coq proof (induction over parameter/element lists, split/index lemmas on byte strings) + grammar-driven differential run"),
     "C16": ("Theorems for ALL byte strings: C16_symmetric (direction independence incl. equal URIs/tags), C16_same_id, C16_callid_discriminates (unconditional), C16_discriminates "
             "(one tag or URI changed, under the boolean separator hypothesis sep_ok), C16_sep_ok_realistic + C16_half_ok_distinct_tags (sep_ok holds for distinct '-'-free tags, any URIs), "
@@ -99,7 +101,8 @@ PROXY_NOTE = ("Whole-proxy engine: the model Proxy.proxy_step (one state per lis
               "started through startProxy from YAML on loopback sockets, one 127.X.Y.0/24 block per scenario, a barrier request after every event; the property's executable judge "
               "(SpecProxy.v / SpecProxy2.v, its own minimal SIP reader) is applied to what the real proxy emitted. Theorems are about the model at the level of decoded messages; the "
               "judge-level link (the executable judge, run on the bytes the model emits, answers 0) is proved as Cxx_judge_bridge_* for C01, C02, C03, C06, C07 and C13 on the "
-              "C14 grammar domain and exercised by the runs for the others. Proxy-generated branches and OS-chosen ports are canonicalised. ")
+              "C14 grammar domain - for datagram events and, for C02 C03 C06 C07 C13 (Cxx_judge_bridge_tcp_msg / _tcp_step, proofs/Cxx_bridge_tcp.v), for a message arriving on an "
+              "accepted TCP connection - and exercised by the runs for the others. Proxy-generated branches and OS-chosen ports are canonicalised. ")
 TB_NOTE = ("Backends reached over TCP (tcp://): ProxyTB.proxy_step_tb is a conservative extension of proxy_step (TB_conservative(_entry/_history): for a "
            "listen entry with UDP backends it IS proxy_step, so the theorems above apply unchanged; TB_copy_faithful*: the copied pipeline differs only "
            "where a backend is reached; TB_payload_agrees: the message written to a TCP backend is the one the UDP model writes; TB_send_reuse/_dial/"
